@@ -606,6 +606,38 @@ def rule_scratch(rep: Report, stl: Stl, prop: str, files: List[str], floor: int,
             # entry without passing an assignment of it (a compile-time or run-time jump over the reset leaves the last value)
             entry, succ = macro_cfg(m, set(cells.values()))
             reset = {L for L, c in first_cls.items() if c == 'assign'}
+            # (fresh-read) whatever the text order: a statement that LOOKS AT a scratch cell (the callee's contract names it in a
+            # condition or on a right-hand side only) and is reachable from the macro entry before any statement that assigns the cell
+            # decides by the value the previous execution left there - unless the macro gives the cell back its load-time value on
+            # every path (not modelled: such a cell is reset first in today's library)
+            if entry is not None:
+                touch0: Dict[int, Dict[str, Optional[str]]] = {}
+                for idx, op in enumerate(m.body):
+                    if op[0] == 'label' or idx in cells.values():
+                        continue
+                    classes = _effect_on(stl, op, tracked, env)
+                    for via in tracked:
+                        b, base, _size = layout[via]
+                        for L in {owner[g] for g in ((b, base + o // dw) for o in touches[idx][via]) if g in owner}:
+                            if L in cells:
+                                touch0.setdefault(idx, {})[L] = classes.get(via) if via == L else touch0.get(idx, {}).get(L)
+                for L in sorted(cells):
+                    writers = [i_ for i_, t_ in touch0.items() if L in t_ and t_[L] != 'read']
+                    if not writers:
+                        continue                      # a cell nobody writes keeps its load-time value
+                    seen_, work_ = set(), [entry]
+                    while work_:
+                        i_ = work_.pop()
+                        if i_ in seen_ or i_ == -1:
+                            continue
+                        seen_.add(i_)
+                        if L in touch0.get(i_, {}):
+                            if touch0[i_][L] == 'read':
+                                verdict.setdefault((L, 'fresh-read'), []).append(
+                                    f'{dict(sz)}: line {m.body[i_][-1]} `{_stmt_name(m.body[i_])}` looks at {L} and is reachable from the macro entry '
+                                    f'before any assignment of it: the value left by the previous execution decides')
+                            continue                  # assigned / updated / unknown: judged by the other clauses
+                        work_.extend(succ.get(i_, []))
             if entry is not None and reset:
                 touch: Dict[int, Dict[str, Optional[str]]] = {}
                 for idx, op in enumerate(m.body):
@@ -661,6 +693,19 @@ def _stmt_name(op: Tuple[Any, ...]) -> str:
     return {'call': lambda: f'{op[1]}/{len(op[2])}', 'rep': lambda: f'rep {op[3]}/{len(op[4])}'}.get(op[0], lambda: op[0])()
 
 
+def doc_cond_reads(m: Macro) -> Set[str]:
+    """parameters the doc block names in a condition line (`if p:`, `if p[:n] == 0 ..`, `while p ..`): the macro looks at them"""
+    out: Set[str] = set()
+    for line in m.doc:
+        text = line[2:].strip()
+        mm = re.match(r'(?:if|elif|while)\b(.*)$', text)
+        if mm:
+            cond = re.sub(r'//.*$', '', mm.group(1))
+            cond = cond.split(':')[0] if ':' in cond and not re.search(r'\[[^\]]*:[^\]]*\]', cond.split(':')[0] + ':') else cond
+            out |= set(re.findall(r'(?<![\w.])([A-Za-z_]\w*)', cond)) & set(m.params)
+    return out
+
+
 def _effect_on(stl: Stl, op: Tuple[Any, ...], labels: Set[str], env: Dict[str, Any]) -> Dict[str, Optional[str]]:
     """documented effect class (assign / update / read / None = no formula) of one statement on each local label it names."""
     if op[0] == 'call':
@@ -674,7 +719,9 @@ def _effect_on(stl: Stl, op: Tuple[Any, ...], labels: Set[str], env: Dict[str, A
     cal = stl.macros.get((name, len(args)))
     if cal is None:
         return {}
-    eff = doc_effects(cal)
+    eff = dict(doc_effects(cal))
+    for q_ in doc_cond_reads(cal):
+        eff.setdefault(q_, 'read')           # named only in a condition of the contract: looked at, not written
     per: Dict[str, List[Optional[str]]] = {}
     forms: List[Tuple[str, Dict[str, int]]] = []
     for q, a in zip(cal.params, args):
@@ -701,6 +748,110 @@ def _effect_on(stl: Stl, op: Tuple[Any, ...], labels: Set[str], env: Dict[str, A
         else:
             out[L] = None
     return out
+
+
+# ---------------------------------------------------------------- FJ.EXIT-CLEAN (an error exit leaves the inputs as they were)
+
+_DOC_EXIT = re.compile(r'^if\s+([A-Za-z_]\w*)\s*(?:\[[^\]]*\])?\s*==\s*0\s*:?\s*(?:goto|jump to)\s+([A-Za-z_]\w*)')
+
+
+def doc_zero_exits(m: Macro) -> List[Tuple[str, str]]:
+    """(operand parameter, target parameter) of every contract line `if p[:n]==0: goto X` with both p and X parameters"""
+    out: List[Tuple[str, str]] = []
+    for line in m.doc:
+        mm = _DOC_EXIT.match(line[2:].strip())
+        if mm and mm.group(1) in m.params and mm.group(2) in m.params:
+            out.append((mm.group(1), mm.group(2)))
+    return out
+
+
+def rule_exit_clean(rep: Report, stl: Stl, prop: str, files: List[str], floor: int, w: int = 64) -> None:
+    rule = f'{prop}.EXIT-CLEAN'
+    rep.rule(rule, 'a macro whose contract says `if p==0: goto X` for a label parameter X and that changes, in place, a parameter its own '
+             'contract only reads (the sign handling of a signed division) leaves through X only while its inputs are untouched: every '
+             'statement that hands X to a callee as a zero-exit is either not reachable after such an in-place change, or is dominated by '
+             'an untouched-state zero-exit to X on the same operand, which only sign changes (`x = -x`: zero stays zero) have touched since', floor)
+    dw = 2 * w
+    n_inst = 0
+    for key, m in sorted(stl.macros.items()):
+        if m.file not in files:
+            continue
+        exits = doc_zero_exits(m)
+        if not exits:
+            continue
+        eff_m = doc_effects(m)
+        readonly = {q for q, c in eff_m.items() if c == 'read'} | {p_ for p_, _x in exits if eff_m.get(p_) in (None, 'read')}
+        env: Dict[str, Any] = dict(base_env(w))
+        for q in m.params:
+            env[q] = {q: 1}
+        cells = scratch_cells(m)
+        entry, succ = macro_cfg(m, set(cells.values()))
+        if entry is None:
+            continue
+
+        def arg_param(e: Any) -> Optional[str]:
+            try:
+                lf = ev(e, env)
+            except (OpaqueValue, NeedConcrete, AnalysisError):
+                return None
+            syms = [k for k in lf if k != '' and lf[k] != 0]
+            return syms[0] if len(syms) == 1 and syms[0] in m.params else None
+        # per statement: which read-only parameters it updates in place (and whether only by a sign change), which zero-exits it makes
+        upd: Dict[int, List[Tuple[str, bool]]] = {}
+        zexit: Dict[int, List[Tuple[str, str]]] = {}
+        for idx, op in enumerate(m.body):
+            if op[0] not in ('call', 'rep'):
+                continue
+            name, args = (op[1], op[2]) if op[0] == 'call' else (op[3], op[4])
+            cal = stl.macros.get((name, len(args)))
+            if cal is None:
+                continue
+            eff = doc_effects(cal)
+            sign_only = any(re.match(r'^\s*(\w+)(\[[^\]]*\])?\s*=\s*-\s*\1\b', ln[2:].strip()) for ln in cal.doc)
+            for q, a in zip(cal.params, args):
+                p_ = arg_param(a)
+                if p_ in readonly and eff.get(q) in ('update', 'assign'):
+                    upd.setdefault(idx, []).append((p_, sign_only))
+            for operand, tgt in doc_zero_exits(cal):
+                po = arg_param(args[cal.params.index(operand)])
+                pt = arg_param(args[cal.params.index(tgt)])
+                if po is not None and pt is not None:
+                    zexit.setdefault(idx, []).append((po, pt))
+        if not upd:
+            continue
+        for operand, X in exits:
+            n_inst += 1
+            # forward exploration with the state (dirty, guarded): dirty = a read-only parameter was changed in place on the way;
+            # guarded = a clean zero-exit to X on `operand` was passed and `operand` has only been sign-changed since
+            bad: List[str] = []
+            seen: Set[Tuple[int, bool, bool]] = set()
+            work: List[Tuple[int, bool, bool]] = [(entry, False, False)]
+            n_exits = 0
+            while work:
+                i_, dirty, guarded = work.pop()
+                if i_ == -1 or (i_, dirty, guarded) in seen:
+                    continue
+                seen.add((i_, dirty, guarded))
+                for po, pt in zexit.get(i_, []):
+                    if pt != X:
+                        continue
+                    n_exits += 1
+                    if dirty and not (guarded and po == operand):
+                        bad.append(f'line {m.body[i_][-1]} `{_stmt_name(m.body[i_])}` can leave through {X} after a parameter the contract only reads '
+                                   f'was changed in place, and no untouched-state zero test of {po} towards {X} comes before it')
+                    if not dirty and po == operand:
+                        guarded = True
+                for p_, sign_only in upd.get(i_, []):
+                    dirty = True
+                    if p_ == operand and not sign_only:
+                        guarded = False
+                for j_ in succ.get(i_, []):
+                    work.append((j_, dirty, guarded))
+            rep.check(not bad and n_exits > 0, rule, f'{key[0]}/{key[1]}:{operand}->{X}', bad[0] if bad else
+                      (f'{n_exits} zero-exit(s) towards {X}: all taken with the inputs untouched or behind the entry test' if n_exits else f'no zero-exit towards {X} found in the body'),
+                      f'{m.file}:{m.line} {m.name}', expected=f'the {operand}==0 test towards {X} before the first in-place change')
+    if n_inst < floor:
+        raise AnalysisError(f'{rule}: {n_inst} macros with a documented zero-exit and in-place sign handling (at least {floor} confirmed by hand: hex.idiv)')
 
 
 # ---------------------------------------------------------------- FJ.ALIAS (documented aliasing hazards are respected by callers)
